@@ -203,21 +203,23 @@ theorem params_step {env : Env} {C : Query → Prop} {n : Nat} (ih : RefAt env C
           rcases hp : evalParams env n w1 ps raw parent with ⟨w2, r⟩
           rw [hp] at hS2 hw2
           simp only at hS2 hw2
-          have fin : ∀ r', (r' = .inr .unmodelled → r = .inr .unmodelled) →
+          have hve : v'.isError = false := hve.symm
+          have fin : ∀ r', (r = .inr .unmodelled → r' = .inr .unmodelled) →
               (∀ c2, (match ((r, c2) : (List PVal ⊕ Outcome) × List Str) with
                 | (.inl rest, c2) => ((.inl (.expanded v'.data pos :: rest), c1 ++ c2) : (List PVal ⊕ Outcome) × List Str)
                 | (.inr o2, c2) => (.inr o2, c1 ++ c2)) = (r', c1 ++ c2)) →
               RefinesP env w w2 r' (fun m => refParams env m (Param.link lq pos :: ps) raw parent) := by
             intro r' hr' hmatch
             refine ⟨hS2, fun hne => ?_⟩
-            obtain ⟨m2, c2', g1, g2, g3⟩ := hw2 (fun hu => hne (hr' hu))
+            have hrne : r ≠ .inr .unmodelled := fun hu => hne (hr' hu)
+            obtain ⟨m2, c2', g1, g2, g3⟩ := hw2 hrne
             rcases hr2 : refParams env m2 ps raw parent with ⟨r2, c2⟩
             simp only [hr2] at g2 g3
             subst g3
             have hlM : refLink env (max m m2) lq parent = (.st v', c1) := by
               rw [refLink_mono_le env (Nat.le_max_left m m2) lq parent (by rw [hr]; simp), hr]
             have hpM : refParams env (max m m2) ps raw parent = (r2, c2) := by
-              rw [refParams_mono_le env (Nat.le_max_right m m2) ps raw parent (by rw [hr2]; exact fun hu => hne (hr' hu)), hr2]
+              rw [refParams_mono_le env (Nat.le_max_right m m2) ps raw parent (by rw [hr2]; exact hrne), hr2]
             refine ⟨max m m2 + 1, c1' ++ c2', ?_, ?_, ?_⟩
             · rw [g1, h1, List.append_assoc]
             · simp only [refParams_link, hlM, hve, Bool.false_eq_true, if_false, hpM, hmatch]
@@ -227,7 +229,7 @@ theorem params_step {env : Env} {C : Query → Prop} {n : Nat} (ih : RefAt env C
           | inl rest => exact fin _ (by simp) (fun c2 => by rw [hvd])
           | inr o => exact fin _ (by simp) (fun c2 => rfl)
         · simp only [if_true]
-          rw [hv] at hve
+          have hve : v'.isError = true := by rw [← hve, hv]
           refine ⟨hS1, fun _ => ⟨m+1, c1', h1, ?_, ?_⟩⟩
           · simp only [refParams_link, hr, hve, if_true]; exact h2
           · simp only [refParams_link, hr, hve, if_true]
